@@ -291,6 +291,12 @@ func (c *channel) sendSession(ctx context.Context, ses *Session) error {
 	if err != nil {
 		return fmt.Errorf("send session: transport error: %w", err)
 	}
+
+	if ses.State == SessionStateFinished || ses.State == SessionStateFailed {
+		// The session is over as soon as its last envelope is written: the state changes before
+		// the lock is released, so that no other envelope can follow it in the transport
+		c.setStateWLock(ses.State)
+	}
 	return nil
 }
 func (c *channel) receiveSession(ctx context.Context) (*Session, error) {
@@ -383,6 +389,11 @@ func (c *channel) sendToTransport(ctx context.Context, e envelope, action string
 
 	c.sendMu.Lock()
 	defer c.sendMu.Unlock()
+
+	// The session may have ended while waiting for the other senders
+	if err := c.ensureEstablished(action); err != nil {
+		return err
+	}
 
 	if err := c.transport.Send(ctx, e); err != nil {
 		return fmt.Errorf("%v: %w", action, err)
